@@ -15,7 +15,7 @@ import sketchnu.countmin as cmmod
 
 RULE = (
     "Fault enumeration over crash points of save(): for each of the five classes and 2 (quick) / 6 (thorough) seed-derived shapes with random "
-    "histories (files of 0.6-20 kB), EVERY strict prefix length 0..len-1 of the saved file is written to disk and loaded through the class "
+    "histories (files of 0.6-20 kB), EVERY strict prefix length 0..len-1 of the saved file (saved to a fresh path, or over an existing larger sketch file, or over arbitrary longer content) is written to disk under rotating names (part.npz, full.part, full.npz.tmp, full) next to the complete full.npz and loaded through the class "
     "loader (with shared_memory False, and True for one shape per class) and, for count-min, through countmin.load; the complete file must load "
     "and equal the saved sketch (parameters, tables, bookkeeping, queries). Oracle: every strict prefix raises an exception (any type); returning any "
     "object is a violation. Non-trivial: a prefix that ends inside a member's data, a later local header or the central directory / end record "
@@ -83,6 +83,17 @@ def _task(arg):
     try:
         sk = build(cfg, rng)
         full = os.path.join(tmp, "full.npz")
+        pre = int(seed) % 3
+        if pre == 1:  # the path already holds a LARGER sketch file of the same class (re-saving over an old file)
+            big = dict(cfg)
+            if "width" in big:
+                big["width"] = big["width"] * 2 + 7
+            else:
+                big["p"] = min(16, big["p"] + 2)
+            sut(build(big, rng).save, full)
+        elif pre == 2:  # ... or arbitrary longer content
+            with open(full, "wb") as f:
+                f.write(bytes(rng.integers(0, 256, 60000, dtype=np.uint8)))
         sut(sk.save, full)
         data = open(full, "rb").read()
         loader = cmmod.load if via == "module" else CLASS_OF[kind].load
@@ -96,9 +107,11 @@ def _task(arg):
             rec.violation(dict(case0, prefix=len(data)), "complete file: " + v.msg, "complete-file")
             return rec
         first_end, cd_start = regions(data)
-        part = os.path.join(tmp, "part.npz")
+        # the truncated file gets various names, next to the complete full.npz (a partial download / temp file)
+        names = [os.path.join(tmp, x) for x in ("part.npz", "full.part", "full.npz.tmp", "full")]
         cls = {"in_first_header": 0, "in_member_data_or_headers": 0, "in_central_directory": 0}
         for n in range(len(data)):
+            part = names[n % len(names)]
             with open(part, "wb") as f:
                 f.write(data[:n])
             try:
@@ -107,6 +120,7 @@ def _task(arg):
                 obj = None
             region = "in_first_header" if n <= first_end else ("in_central_directory" if n >= cd_start else "in_member_data_or_headers")
             cls[region] += 1
+            os.unlink(part)
             if obj is not None:
                 rec.violation(dict(case0, prefix=n), f"{kind} {cfg}: a {n}-byte prefix of the {len(data)}-byte file loaded through {via} loader (shared_memory={shm}) and returned {type(obj).__name__} ({region})", "prefix-loaded")
                 del obj
